@@ -57,11 +57,13 @@ WellSorted == Started => \A i \in 1..(Len(Recs) - 1) : ~VLess(Recs[i + 1].in, Re
 
 FixedLen == Started => \A i \in 1..Len(Cur.items) : Len(Cur.items[i].enc) = Cur.w /\ Len(Cur.items[i].in) = Cur.w
 
+(* dec2: the same encoding (the very slice the encoder returned) decoded a second time - whoever holds an *)
+(* encoding, a leaf for one, decodes it again and again                                                 *)
 RoundTripOK ==
   Started => \A i \in 1..Len(Cur.items) :
      LET r == Cur.items[i]
-     IN  IF AnyNaN(r.in) THEN VEq(r.in, r.dec)      \* NaN for NaN (payload not preserved)
-         ELSE r.dec = r.in                          \* bit for bit
+     IN  IF AnyNaN(r.in) THEN VEq(r.in, r.dec) /\ VEq(r.in, r.dec2)    \* NaN for NaN (payload not preserved)
+         ELSE r.dec = r.in /\ r.dec2 = r.in                            \* bit for bit, every time
 
 OrderIso ==
   Started => \A i \in 1..(Len(Recs) - 1) :
